@@ -12,6 +12,7 @@ import (
 
 	simrt "verif/sim/simrt"
 
+	"github.com/VividCortex/ewma"
 	"github.com/vbauerster/mpb/v8"
 	"github.com/vbauerster/mpb/v8/decor"
 )
@@ -223,6 +224,16 @@ func initSharedStyles(sc *Scenario) {
 	}
 }
 
+// recAvg is the recording average of a moving-average decorator, as it is or inside the library's
+// thread-safe wrapper.
+func recAvg(spec DecSpec, bar, side, ord int) ewma.MovingAverage {
+	a := &recAverage{bar: bar, side: side, ord: ord}
+	if spec.TSafe {
+		return decor.NewThreadSafeMovingAverage(a)
+	}
+	return a
+}
+
 func buildDecorator(spec DecSpec, bar, side, ord int) decor.Decorator {
 	wc := decor.WC{W: spec.W, C: spec.C}
 	if spec.PreInit {
@@ -257,20 +268,34 @@ func buildDecorator(spec DecSpec, bar, side, ord int) decor.Decorator {
 			d = pd
 		}
 	case DecElapsed:
-		d = decor.Elapsed(decor.TimeStyle(spec.Style%4), wc)
+		if spec.StartOff > 0 {
+			d = decor.NewElapsed(decor.TimeStyle(spec.Style%4), time.Now().Add(-time.Duration(spec.StartOff)), wc)
+		} else {
+			d = decor.Elapsed(decor.TimeStyle(spec.Style%4), wc)
+		}
 	case DecAvgSpeed:
-		d = decor.AverageSpeed(sizeUnit(spec.Style), spec.Fmt, wc)
+		if spec.StartOff > 0 {
+			d = decor.NewAverageSpeed(sizeUnit(spec.Style), spec.Fmt, time.Now().Add(-time.Duration(spec.StartOff)), wc)
+		} else {
+			d = decor.AverageSpeed(sizeUnit(spec.Style), spec.Fmt, wc)
+		}
 	case DecAvgETA:
-		d = decor.AverageETA(decor.TimeStyle(spec.Style%4), wc)
+		if spec.StartOff > 0 {
+			d = decor.NewAverageETA(decor.TimeStyle(spec.Style%4), time.Now().Add(-time.Duration(spec.StartOff)), nil, wc)
+		} else {
+			d = decor.AverageETA(decor.TimeStyle(spec.Style%4), wc)
+		}
 	case DecEwmaSpeed:
-		d = decor.MovingAverageSpeed(sizeUnit(spec.Style), spec.Fmt, &recAverage{bar: bar, side: side, ord: ord}, wc)
+		d = decor.MovingAverageSpeed(sizeUnit(spec.Style), spec.Fmt, recAvg(spec, bar, side, ord), wc)
 	case DecEwmaETA:
 		if spec.Age == 1 {
 			// nil average: the library's own median-of-three window
 			d = decor.MovingAverageETA(decor.TimeStyle(spec.Style%4), nil, nil, wc)
 		} else {
-			d = decor.MovingAverageETA(decor.TimeStyle(spec.Style%4), &recAverage{bar: bar, side: side, ord: ord}, nil, wc)
+			d = decor.MovingAverageETA(decor.TimeStyle(spec.Style%4), recAvg(spec, bar, side, ord), nil, wc)
 		}
+	case DecInvCurrent:
+		d = decor.InvertedCurrent(sizeUnit(spec.Style), spec.Fmt, wc)
 	case DecLibEwmaSpeed:
 		d = decor.EwmaSpeed(sizeUnit(spec.Style), spec.Fmt, float64(spec.Age), wc)
 	case DecLibEwmaETA:
@@ -302,6 +327,8 @@ func buildDecorator(spec DecSpec, bar, side, ord int) decor.Decorator {
 			d = decor.OnCompleteMeta(d, metaFn)
 		case WrapOnAbortMeta:
 			d = decor.OnAbortMeta(d, metaFn)
+		case WrapOnCompleteMetaOrOnAbortMeta:
+			d = decor.OnCompleteMetaOrOnAbortMeta(d, metaFn)
 		}
 	}
 	switch spec.Cond {
